@@ -30,7 +30,7 @@ DEFAULT_PROFILE = dict(
     periods=[1, 5, 5, 5, 7.5, 15, 15, 60, 0.5, 2.5, 4.1, 0.125],
     extra_recompute=0.4,
     vacant_pilots=0.5,
-    sid_mode={"plain": 3, "crossed": 1},
+    sid_mode={"plain": 3, "crossed": 1, "numeric": 0.4},
     faults={},                    # kind -> expected number per run (Poisson-ish)
     resume_modes=["rerun"],
     store_history=0.5,
@@ -132,6 +132,14 @@ def gen_world(rs: int, P: dict) -> dict:
     hetero = r.random() < P["heterovolt"]
     v0 = r.choice(VOLTAGES)
     ckind = wchoice(r, P["constraints"])
+    palette = PHASES3
+    rph = sub(rs, "phase_palette").random()
+    if rph < 0.06:
+        palette = [0, 180]                  # split-phase site: legs 180 degrees apart
+    elif rph < 0.1:
+        palette = [30, -150, 150]
+    elif rph < 0.14:
+        palette = [0, 45.5, -120, 240, 90]  # arbitrary angles (240 == -120)
     for i, nm in enumerate(names):
         rr_ = sub(rs, "station", nm)
         kinds = dict(P["evse_kinds"])
@@ -148,7 +156,7 @@ def gen_world(rs: int, P: dict) -> dict:
         stations.append({
             "id": nm, "evse": e,
             "voltage": rr_.choice(VOLTAGES) if hetero else v0,
-            "phase": (rr_.choice(PHASES3) if ckind == "three" else 0),
+            "phase": (rr_.choice(palette) if ckind == "three" else 0),
         })
     rsub = sub(rs, "evse_subclass")
     if P.get("evse_subclass", 0) and rsub.random() < P["evse_subclass"]:
@@ -183,6 +191,16 @@ def gen_world(rs: int, P: dict) -> dict:
             frac = rc.uniform(*P["binding"])
             limit = max(1.0, round(cap * frac, rc.choice([0, 1, 3])))
             cons.append({"name": "c%d" % j, "coeffs": coeffs, "limit": limit})
+        if rc.random() < 0.06:
+            # a constraint that loads nobody (a spare feeder: every coefficient 0): it can never bind, and it is still part of
+            # the infrastructure (names, limits and row order) every party has to be told about
+            mem0 = rc.sample([s["id"] for s in stations], rc.randint(1, n_st))
+            cons.insert(rc.randint(0, len(cons)), {"name": "c%d" % len(cons), "coeffs": {m: 0 for m in mem0}, "limit": float(rc.choice([1, 25, 100]))})
+        if rc.random() < 0.1:
+            # unusual but valid constraint names: glob / regex metacharacters, spaces, numeric-looking, prefixes of each other
+            pool = ["I[a]", "Sec*", "c?", "a b", "1", "01", "c", "cc", "A.B", "(x)", "c1|c2", "^p$"]
+            for c_, nm_ in zip(cons, rc.sample(pool, len(cons))):
+                c_["name"] = nm_
     tol = sub(rs, "tol")
     net = {
         "kind": P["net"],
@@ -281,6 +299,13 @@ def gen_world(rs: int, P: dict) -> dict:
             if cand:
                 s["session_id"] = cand[0]
                 used.add(cand[0])
+    if sid_mode == "numeric":
+        # session ids that look like numbers (leading zeros, one a numeric prefix of another); they are strings
+        pool = ["1001", "0007", "7", "007", "10", "1", "1e3", "0", "-1", "3.0", "12", "0012"]
+        rn_ = sub(rs, "numeric_ids")
+        rn_.shuffle(pool)
+        for s_, nm_ in zip(sessions, pool):
+            s_["session_id"] = nm_
     rsim.shuffle(sessions)
 
     extra = []
